@@ -94,8 +94,15 @@ ENTRY = {'coq_dir': 'C12',
                'is the outcome `stuck` (never reached in any run). NotificationHandle::send_async_notification (the &mut-borrowing wrapper) is '
                'covered as the same lookup + the modelled sink-level future; try_open/try_close_substream_batch do not affect delivery.',
  'assumptions': ['channel capacities >= 1 (tokio panics on 0)',
-                 "a stream is set up again only after both Connection tasks of the previous one have finished (guaranteed by NotificationProtocol's "
-                 'peer state, C11); each endpoint joins a stream at most once',
+                 'a stream is set up again only after both Connection tasks of the previous one have finished; each endpoint joins a stream at most '
+                 'once. This restricts the scheduler model (Model.open_stream refuses otherwise) and is NOT guaranteed by the code: the attempt to '
+                 "derive it from C11 (coq/Link/C11_C12.v) produced the reachable counter-witness C12_setup_condition_not_provided_by_C11 - in C11's "
+                 'model of the repaired NotificationProtocol a stream of a peer is closed by the user while its Connection task is slow to close, '
+                 'the remote re-opens, the user accepts: peer state Open 1 with Connection task 0 of the same peer still alive and closing (since '
+                 'the repair of the late NotificationStreamClosed the protocol reports the close at once). C11 guarantees the alternation of the '
+                 'user-visible events and that the handle holds the newest sink, not that the old Connection has finished; the overlap is handled by '
+                 'the stream-identifier filter (C11_lazy_notification_in_its_period) and the fresh sink of the new stream (C11_gate_is_newest_sink), '
+                 "outside C12's scheduler model",
                  'relative order between the two sending modes is not claimed (matches the property text)',
                  'C12_eventual_delivery: `drainable` (stream open at both ends and left alone, sizes within both maxima, both users have seen '
                  'Opened, poll budget above the queue lengths) and at least as many fair rounds as notifications under way; satisfiable: '
@@ -138,4 +145,4 @@ ENTRY = {'coq_dir': 'C12',
                  'every theorem quantifies over cfg, hint lists and step lists; C12_quiescence_is_a_schedule; C12_tables_in_sync ties the hard-wired '
                  'orders',
                  'capacity/maximum tables of the generators; tools/gen_c12_tables.py']],
- 'coq_deps': ['C04', 'Link']}
+ 'coq_deps': ['C04', 'C11', 'Link']}
